@@ -127,6 +127,8 @@ def check_op(case):
             if a.size:
                 return ("grad_none", "operand %d has no gradient; expected %s" % (i, exp))
             continue
+        if type(got) is not np.ndarray:
+            return ("grad_type", "operand %d: .grad is a %s, not an ndarray" % (i, type(got).__name__))
         if got.shape != a.shape or got.dtype != a.dtype:
             return ("grad_shape_dtype", "operand %d: grad %s %s for tensor %s %s" % (i, got.shape, got.dtype, a.shape, a.dtype))
         if not compare(got, exp, rtol):
